@@ -53,6 +53,9 @@ pub const PLUS: &str = "+";
 /// The symbol `-`
 pub const MINUS: &str = "-";
 
+/// The start of a line comment `//`
+pub const COMMENT: &str = "//";
+
 /// The symbol `⟨`
 pub const LANGLE: &str = "\u{27E8}";
 
